@@ -200,6 +200,16 @@ def judge(spec, rec):
                         raise Violation('debug-leak/subgrader-after-debug-parent',
                                         'a %s configured without debug shows %r when called alone after its debug=True '
                                         'ListGrader graded' % (type(sub).__name__, m), text=text[:300])
+    # the same call once more on the same grader object (same sampling seed): the same outcome
+    set_seed(spec['seed'])
+    with watchdog(60):
+        status2, res2 = call(grader, spec.get('expect'), inp, **kwargs)
+    rec.calls()
+    same = status2 == status and (res2 == res if status == 'ok' else
+                                  (type(res2) is type(res) and str(res2) == str(res)))
+    if not same and (status == 'ok' or status2 == 'ok' or isinstance(res, MITxError)):
+        raise Violation('resubmission/outcome-differs', '%s: the same call made twice on one grader object gave %s and then %s'
+                        % (kind, (status, str(res)[:200]), (status2, str(res2)[:200])))
     if status == 'err':
         rec.cls('%s/raised' % kind)
         rec.note('raised/' + ('library-error' if isinstance(res, MITxError) else 'other:' + type(res).__name__))
@@ -511,7 +521,7 @@ def judge_debug_history(spec, rec):
 PARTS = [
     Part('debug-history', 'enum', judge_debug_history, items=items_debug_history, exhaustive=True),
     Part('graders', 'hyp', judge, strategy=lambda tier: strat_cases(tier),
-         budget={'quick': 20000, 'thorough': 600000}),
+         budget={'quick': 15000, 'thorough': 450000}),
     Part('products', 'hyp', judge, strategy=lambda tier: strat_products(tier),
          budget={'quick': 2500, 'thorough': 60000}),
     Part('groupings', 'enum', judge_grouping, items=items_groupings, exhaustive=True),
